@@ -308,7 +308,7 @@ pub fn case<G: CurveTag>(bytes: &[u8], col: &mut Collector, cfg: &GenCfg) -> Res
 
 fn dispatch(sub: &str, bytes: &[u8], col: &mut Collector) -> Result<(), Failure> {
     let curve = Curve::from_name(sub.split('/').nth(1).unwrap_or("")).unwrap_or(Curve::Secq);
-    let cfg = if sub.ends_with("/large") { GenCfg { max_ops1: 26, max_closures: 5, max_ops2: 10, max_commits: 12, big_gates: 70, max_terms: 10 } } else { GenCfg::small() };
+    let cfg = if sub.ends_with("/wide") { GenCfg { max_ops1: 600, max_closures: 2, max_ops2: 6, max_commits: 200, big_gates: 0, max_terms: 6, wide: true } } else if sub.ends_with("/large") { GenCfg { max_ops1: 26, max_closures: 5, max_ops2: 10, max_commits: 12, big_gates: 70, max_terms: 10, wide: false } } else { GenCfg::small() };
     with_curve!(curve, G => case::<G>(bytes, col, &cfg))
 }
 
@@ -335,6 +335,9 @@ pub fn run(tier: &str, seed: u64) -> i32 {
         let subl = format!("c02/{}/large", c.name());
         let nl = super::scale(tier, 32, 400);
         rep.outcome.merge(search(&subl, seed, nl, 900, &|b, col| dispatch(&subl, b, col)));
+        let subw = format!("c02/{}/wide", c.name());
+        let nw = super::scale(tier, 16, 200);
+        rep.outcome.merge(search(&subw, seed, nw, 6000, &|b, col| dispatch(&subw, b, col)));
     }
     for c in [
         "inject:linear", "inject:constant-only", "inject:committed-only", "inject:gate", "inject:cancelling-linear-pair",
